@@ -138,12 +138,13 @@ inductive OrderErr
   | first
   | last
   | tooMany (kind : String)
-  | pyIndex          -- `schedule[0]` on an empty schedule (only if `minLen = 0`): IndexError escapes
+  | pyIndex          -- `schedule[0]` on an empty schedule (only if `minLen = 0`): IndexError, converted like ValueError
+  | notSequence      -- `len(schedule)` / `schedule[0]` fails on an iterable that is not a sequence (TypeError / KeyError, converted)
 deriving Repr, DecidableEq
 
 def OrderErr.toString : OrderErr → String
   | .tooShort => "tooShort" | .first => "first" | .last => "last"
-  | .tooMany k => s!"tooMany:{k}" | .pyIndex => "pyIndex"
+  | .tooMany k => s!"tooMany:{k}" | .pyIndex => "pyIndex" | .notSequence => "notSequence"
 
 def checkLimits (names : List String) : List (String × Nat) → Except OrderErr Unit
   | [] => .ok ()
@@ -177,23 +178,22 @@ def validateSchedulesAux (T : Tables) (L : Lists) : List Schedule → Nat → Ex
   | [], _ => .ok ()
   | .nonIterable :: _, i => .error (.itemNoPos i)
   | .nonSequence k its :: _, i =>
-    -- the item loop works on any iterable; the order check then calls `len(schedule)` and `schedule[0]`:
-    -- only ValueError is converted, TypeError / KeyError escape (open finding D18)
+    -- the item loop works on any iterable; the order check then calls `len(schedule)` and `schedule[0]`, whose
+    -- TypeError / KeyError / IndexError are converted to the schedule-order error like ValueError (fix df6ca25, D18)
     match validateItems T L its 0 with
     | .error (_, .keyError) => .error (.escaped .keyError)
     | .error (j, e) => .error (.item i j e)
     | .ok _ =>
       match k with
-      | .noLen => .error (.escaped .typeError)
-      | .keyed => if its.length < T.minLen then .error (.order i .tooShort) else .error (.escaped .keyError)
-      | .unordered => if its.length < T.minLen then .error (.order i .tooShort) else .error (.escaped .typeError)
+      | .noLen => .error (.order i .notSequence)
+      | .keyed => if its.length < T.minLen then .error (.order i .tooShort) else .error (.order i .notSequence)
+      | .unordered => if its.length < T.minLen then .error (.order i .tooShort) else .error (.order i .notSequence)
   | .items its :: rest, i =>
     match validateItems T L its 0 with
     | .error (_, .keyError) => .error (.escaped .keyError)
     | .error (j, e) => .error (.item i j e)
     | .ok names =>
       match validateOrder T names with
-      | .error .pyIndex => .error (.escaped .indexError)
       | .error r => .error (.order i r)
       | .ok () => validateSchedulesAux T L rest (i + 1)
 
